@@ -786,12 +786,18 @@ def run(tier: str) -> int:
         plan = [("en", sd + i, 30, i == 0) for i in range(3)] + [(l, sd + 100 + k, 3, True) for k, l in enumerate(few) if l in langs]
     run_v(o, plan, counts)
     o.extra["violation_counts"] = counts
+    # the dump-processing pipeline one level up (spec/Pipeline.tla): overrides, backup placement, analysis
+    import pipeline
+    common.with_engine(o, "pipeline", lambda: pipeline.extend(o, tier, "C12"))
     return o.finish()
 
 
 def replay(path: str) -> int:
     v = json.loads(Path(path).read_text())
     case = v["case"]
+    if case.get("engine") == "pipeline":
+        import pipeline
+        return pipeline.replay(path)
     common.use_repo()
     print("why:", v["why"])
     with Scratch("c12r-") as d:
